@@ -144,5 +144,52 @@ func probe(args []string) error {
 		runtime.ReadMemStats(&m1)
 		fmt.Printf("pow legacy, declared targetBits 300: CheckMinerMatch -> %s after %v, %d MiB allocated\n", r, time.Since(t0).Round(time.Millisecond), (m1.TotalAlloc-m0.TotalAlloc)>>20)
 	}
+	// 6. tdpos: the validators of one term differ between the term's first block and its later blocks
+	{
+		base := schedCfg{Kind: "tdpos", Period: 3000, BlockNum: 2, N: 2, Alt: 3000, TermInt: 6000, Init: 0, U: 3, Start: 1}
+		aux, err := newInstance(base, true, 2)
+		if err != nil {
+			return err
+		}
+		// the first millisecond of slot (term, 0, bp) according to the real schedule
+		slot := func(term, bp int64) int64 {
+			for ms := int64(0); ms < 200000; ms++ {
+				t, p, b, _ := tdpos.VerifMinerScheduling(aux.c, tdposBase+ms*1000000)
+				if t == term && p == 0 && b == bp {
+					return ms * 1000000
+				}
+			}
+			panic("slot not found")
+		}
+		// blocks 1..4 in the first slots of terms 1..4, block 5 is the first block of term 5; block 1 records the election
+		// result (v2, v1), block 2 changes it to (v3, v1)
+		rec := [][]int{{}, {2, 1}, {3, 1}, {3, 1}, {3, 1}, {3, 1}}
+		bts := []int64{slot(1, 0), slot(2, 0), slot(3, 0), slot(4, 0), slot(5, 0)}
+		for _, tip := range []int{4, 5} {
+			c := base
+			c.Rec, c.Bts, c.Hgt, c.NodeAt = rec[:tip+1], bts[:tip], int64(tip+1), tip
+			in, err := newInstance(c, true, 2)
+			if err != nil {
+				return err
+			}
+			ts := slot(5, int64(tip-4))
+			_, acc, _ := in.at(ts, 2)
+			fmt.Printf("tdpos tip %d (term %d), candidate height %d in term 5 slot (pos 0, blockPos %d): validator 1 -> %s, 2 -> %s, 3 -> %s; node's own set after a restart on this tip: %v\n",
+				tip, in.tipTerm, c.Hgt, tip-4, acc[1], acc[2], acc[3], short(in.node))
+		}
+		fmt.Printf("  (validator numbers: 1 = %s, 2 = %s, 3 = %s; election (2,1) as of block 1 = three below the tip 4 on which term 5 begins, (3,1) as of block 2)\n",
+			valKey(1).Address[:6], valKey(2).Address[:6], valKey(3).Address[:6])
+	}
 	return nil
+}
+
+func short(a []string) []string {
+	out := []string{}
+	for _, x := range a {
+		if len(x) > 6 {
+			x = x[:6]
+		}
+		out = append(out, x)
+	}
+	return out
 }
